@@ -68,12 +68,15 @@ def main(argv):
     args = list(argv)
     prop = None
     replay = None
+    nowrite = False
     while args:
         a = args.pop(0)
         if a == "--tier":
             tier = args.pop(0)
         elif a == "--replay":
             replay = args.pop(0)
+        elif a == "--no-write":
+            nowrite = True  # development runs against a scratch tree: leave evidence/ alone
         else:
             prop = a
     try:
@@ -94,7 +97,7 @@ def main(argv):
         if not prop:
             print(__doc__)
             return 2
-        rc, run = run_property(prop, tier=tier, seed=seed)
+        rc, run = run_property(prop, tier=tier, seed=seed, write=not nowrite)
         return rc
     except AnalysisError as e:
         print("ANALYSIS-ERROR property=%s %s" % (prop, e))
